@@ -9,6 +9,7 @@ import CddVerif.Driver.C07
 import CddVerif.Driver.C08
 import CddVerif.Driver.C09
 import CddVerif.Driver.C10
+import CddVerif.Driver.C10Join
 import CddVerif.Driver.C11
 import CddVerif.Driver.C12
 import CddVerif.Driver.C13
@@ -26,7 +27,7 @@ open Lean
 
 def allOps : List (String × Driver.Handler) :=
   Driver.PyStr.ops ++ Driver.C01.ops ++ Driver.C02.ops ++ Driver.C03.ops ++ Driver.C04.ops ++ Driver.C05.ops ++
-  Driver.C06.ops ++ Driver.C07.ops ++ Driver.C08.ops ++ Driver.C09.ops ++ Driver.C10.ops ++ Driver.C11.ops ++
+  Driver.C06.ops ++ Driver.C07.ops ++ Driver.C08.ops ++ Driver.C09.ops ++ Driver.C10.ops ++ Driver.C10Join.ops ++ Driver.C11.ops ++
   Driver.C12.ops ++ Driver.C13.ops ++ Driver.C14.ops ++ Driver.C15.ops ++ Driver.C16.ops ++ Driver.C17.ops ++
   Driver.C18.ops ++ Driver.C19.ops ++ Driver.C20.ops ++ Driver.C14GN.ops
 
